@@ -75,6 +75,7 @@ class ModbusBinaryFramer(ModbusFramer):
             return False
         if start > 0:  # go ahead and skip old bad data
             self._buffer = self._buffer[start:]
+            start = 0
 
         end = self._buffer.find(self._end)
         if end != -1:
